@@ -190,3 +190,168 @@ i.iter_post("answer-carries-own-id",
 i.iter_post("no-answer-without-task", f"implies(not {GOT}, {ANSWERS} == 0)", prop="C04")
 i.iter_post("timeout-continues-only-without-lock",
             "implies(log_count('cq_get_empty') == 1, exists_event('acquire_failed', lambda l: l is processes_management_lock))", prop="C07")
+
+
+# ======================================================================
+# flags and wake-up pipe
+c = M.contract("_ExecutorFlags.flag_as_shutting_down", props=["C05", "C06"])
+c.param("self", T.Ref("_ExecutorFlags")).param("kill_workers", T.Opt(T.Bool), default=NONE)
+c.ensures("flags/shutdown-set", "self.shutdown == True")
+c.ensures("flags/kill-workers-as-requested", "self.kill_workers == ite(is_none(kill_workers), old(self.kill_workers), the(kill_workers))")
+c.ensures("flags/under-shutdown-lock", "log_tags() == ['acquire', 'release'] and log_arg('acquire', 0, 0) is self.shutdown_lock")
+c.ensures("flags/broken-untouched", "self.broken is old(self.broken)")
+c.raises_only("flags/no-exception")
+c.modifies("self.shutdown", "self.kill_workers")
+
+c = M.contract("_ExecutorFlags.flag_as_broken", props=["C02"])
+c.param("self", T.Ref("_ExecutorFlags")).param("broken", T.Exc())
+c.ensures("flags/broken-and-shutdown-set", "self.shutdown == True and self.broken is broken")
+c.ensures("flags/under-shutdown-lock", "log_tags() == ['acquire', 'release'] and log_arg('acquire', 0, 0) is self.shutdown_lock")
+c.raises_only("flags/no-exception")
+c.modifies("self.shutdown", "self.broken")
+
+c = M.contract("_ThreadWakeup.close", props=["C20", "C05"])
+c.param("self", T.Ref("_ThreadWakeup"))
+c.ensures("wakeup/closed-after", "self._closed == True")
+c.ensures("wakeup/closes-both-ends-once", "ite(old(self._closed), log_count('conn_close') == 0, "
+          "log_count('conn_close') == 2 and log_arg('conn_close', 0, 0) is self._writer and log_arg('conn_close', 1, 0) is self._reader)")
+c.raises_only("wakeup/no-exception")
+c.modifies("self._closed")
+
+c = M.contract("_ThreadWakeup.wakeup", props=["C05"])
+c.param("self", T.Ref("_ThreadWakeup"))
+c.ensures("wakeup/sends-iff-open", "log_count('send_bytes') == ite(old(self._closed), 0, 1)")
+c.raises("wakeup/pipe-error", "Exception")
+c.modifies()
+
+c = M.contract("_ThreadWakeup.clear", props=["C05"])
+c.param("self", T.Ref("_ThreadWakeup"))
+c.modifies()
+i = M.invariant("_ThreadWakeup.clear", 0, "while self._reader.poll():")
+i.inv("trivial", "True")
+
+
+# ======================================================================
+# the manager thread
+EMT = "_ExecutorManagerThread"
+WF_IDS = "forall(Int, lambda k: implies(G.work_ids[k], k in self.pending_work_items))"
+
+c = M.contract(f"{EMT}.add_call_item_to_queue", props=["C03"])
+c.param("self", T.Ref(EMT))
+c.requires("ids-queued-are-pending", WF_IDS)
+c.ensures("dispatch/ids-queued-stay-pending", WF_IDS)
+c.raises_only("dispatch/no-exception")
+c.modifies("contents(self.pending_work_items)", "contents(self.running_work_items)", "G.work_ids")
+c.assumes("A-atomic")
+i = M.invariant(f"{EMT}.add_call_item_to_queue", 0, "while True:")
+i.inv("ids-queued-are-pending", WF_IDS)
+i.iter_post("dispatch/call-item-carries-own-work-item",
+            "all_events('cq_put', lambda q, item: q is self.call_queue and isinstance_(item, _CallItem) and "
+            "as_(item, '_CallItem').work_id == log_arg('wq_get', 0, 1) and "
+            "as_(item, '_CallItem').fn is self.pending_work_items[log_arg('wq_get', 0, 1)].fn and "
+            "as_(item, '_CallItem').args is self.pending_work_items[log_arg('wq_get', 0, 1)].args and "
+            "as_(item, '_CallItem').kwargs is self.pending_work_items[log_arg('wq_get', 0, 1)].kwargs)", prop="C03")
+i.iter_post("dispatch/cancelled-never-dispatched",
+            "implies(log_count('set_running') == 1 and not log_arg('set_running', 0, 1), "
+            "log_count('cq_put') == 0 and log_arg('wq_get', 0, 1) not in self.pending_work_items)", prop="C03")
+i.iter_post("dispatch/only-after-marking-running",
+            "implies(log_count('cq_put') >= 1, log_count('cq_put') == 1 and log_count('set_running') == 1 and log_arg('set_running', 0, 1) "
+            "and log_arg('set_running', 0, 0) is self.pending_work_items[log_arg('wq_get', 0, 1)].future "
+            "and log_pos('set_running', 0) < log_pos('cq_put', 0))", prop="C03")
+i.iter_post("dispatch/nothing-when-full",
+            "implies(log_count('cq_put') >= 1, log_count('cq_full') == 1 and not log_arg('cq_full', 0, 1))", prop="C03")
+
+# ---------------------------------------------------------------- process_result_item
+OTHERS_UNTOUCHED = ("forall(Ref('Future'), lambda f: implies(f is not {fut}, G.fut_n_exc[f] == old(G.fut_n_exc[f]) and "
+                    "G.fut_n_res[f] == old(G.fut_n_res[f]) and G.fut_exc[f] == old(G.fut_exc[f]) and G.fut_res[f] == old(G.fut_res[f])))")
+NO_FUTURE_TOUCHED = "G.fut_n_exc == old(G.fut_n_exc) and G.fut_n_res == old(G.fut_n_res) and G.fut_exc == old(G.fut_exc) and G.fut_res == old(G.fut_res)"
+
+c = M.contract(f"{EMT}.process_result_item", props=["C03", "C04", "C07"])
+c.param("self", T.Ref(EMT)).param("result_item", T.Union(T.Int, T.Ref("_ResultItem")))
+EXEC = "as_(select(G.referent, self.executor_reference), 'ProcessPoolExecutor')"
+c.rely("manager-shares-the-executor-tables",
+       f"{EXEC}._processes is self.processes and {EXEC}._pending_work_items is self.pending_work_items and "
+       f"{EXEC}._running_work_items is self.running_work_items and "
+       f"implies({EXEC}._processes_management_lock is not None, {EXEC}._processes_management_lock is self.processes_management_lock)", "A-alias")
+c.rely("registered-pids-are-live-children", "forall(Int, lambda k: implies(k in self.processes, G.pid_live[k] and self.processes[k].pid == k))", "A-pids")
+c.requires("dispatched-ids-are-running",
+           "implies(not is_int(result_item) and result_item.work_id in self.pending_work_items, mem(self.running_work_items, result_item.work_id))")
+# ---- a _ResultItem: the right future, once, nothing else
+RI = "not is_int(result_item)"
+WID = "result_item.work_id"
+FUT = f"old(self.pending_work_items[{WID}]).future"
+c.ensures("result/own-future-resolved-once",
+          f"implies({RI} and old({WID} in self.pending_work_items), "
+          f"G.fut_n_exc[{FUT}] + G.fut_n_res[{FUT}] == old(G.fut_n_exc[{FUT}] + G.fut_n_res[{FUT}]) + 1)", prop=["C03", "C04"])
+c.ensures("result/exception-as-sent",
+          f"implies({RI} and old({WID} in self.pending_work_items) and truthy(result_item.exception), "
+          f"G.fut_n_exc[{FUT}] == old(G.fut_n_exc[{FUT}]) + 1 and G.fut_exc[{FUT}] is result_item.exception)", prop=["C03", "C04"])
+c.ensures("result/value-as-sent",
+          f"implies({RI} and old({WID} in self.pending_work_items) and not truthy(result_item.exception), "
+          f"G.fut_n_res[{FUT}] == old(G.fut_n_res[{FUT}]) + 1 and G.fut_res[{FUT}] is result_item.result)", prop=["C03", "C04"])
+c.ensures("result/no-other-future-touched",
+          f"implies({RI} and old({WID} in self.pending_work_items), " + OTHERS_UNTOUCHED.format(fut=FUT) + ")", prop=["C03", "C04"])
+c.ensures("result/unknown-id-touches-nothing", f"implies({RI} and not old({WID} in self.pending_work_items), {NO_FUTURE_TOUCHED})", prop=["C03", "C04"])
+c.ensures("result/id-forgotten", f"implies({RI}, {WID} not in self.pending_work_items)", prop=["C03", "C04"])
+c.ensures("result/other-pending-kept",
+          f"implies({RI}, forall(Int, lambda k: implies(k != {WID}, (k in self.pending_work_items) == old(k in self.pending_work_items) and "
+          "self.pending_work_items[k] is old(self.pending_work_items[k]))))", prop=["C03", "C04"])
+c.ensures("result/flags-untouched", "self.executor_flags.broken is old(self.executor_flags.broken) and self.executor_flags.shutdown == old(self.executor_flags.shutdown)", prop=["C04", "C07"])
+# ---- a pid: clean exit of a worker, never 'broken', no future touched
+PID = "is_int(result_item)"
+PROC = "old(self.processes[result_item])"
+c.ensures("pid/no-future-touched", f"implies({PID}, {NO_FUTURE_TOUCHED})", prop="C07")
+c.ensures("pid/worker-forgotten", f"implies({PID} and log_count('call:ProcessPoolExecutor._adjust_process_count') == 0, result_item not in self.processes)", prop="C07")
+c.ensures("pid/exit-lock-released-once-and-joined",
+          f"implies({PID} and old(result_item in self.processes), G.sem_released[{PROC}._worker_exit_lock] == old(G.sem_released[{PROC}._worker_exit_lock]) + 1 "
+          f"and G.joined[{PROC}])", prop=["C07", "C20"])
+c.ensures("pid/popped-under-management-lock",
+          f"implies({PID}, log_arg('acquire', 0, 0) is self.processes_management_lock and log_pos('acquire', 0) == 0)", prop="C07")
+c.ensures("pid/respawn-warns-and-holds-the-management-lock",
+          f"implies({PID} and log_count('call:ProcessPoolExecutor._adjust_process_count') >= 1, log_count('warn') == 1 and "
+          "log_count('call:ProcessPoolExecutor._adjust_process_count') == 1)", prop="C07")
+c.at_call("loky.process_executor:ProcessPoolExecutor._adjust_process_count", "under-management-lock",
+          "held(log_arg('deref', 0, 1)._processes_management_lock)", prop=["C07", "C08"])
+c.raises("result/only-from-respawn", "BaseException", post=f"{PID}")
+c.modifies("contents(self.pending_work_items)", "contents(self.running_work_items)", "contents(self.processes)",
+           "G.fut_n_exc", "G.fut_n_res", "G.fut_exc", "G.fut_res", "G.sem_released", "G.joined", "G.started", "G.pid_live")
+c.assumes("A-atomic")
+c.cover("pid-known", "is_int(result_item) and old(result_item in self.processes)")
+c.cover("result-known", "not is_int(result_item) and old(result_item.work_id in self.pending_work_items)")
+c.expect(paths=5)
+
+# ---------------------------------------------------------------- _adjust_process_count
+PPE = "ProcessPoolExecutor"
+KEEP = ("forall(Int, lambda k: implies({o}(k in self._processes), k in self._processes and self._processes[k] is {o}(self._processes[k])))")
+NEWSTARTED = ("forall(Int, lambda k: implies(k in self._processes and not {o}(k in self._processes), "
+              "G.started[self._processes[k]]))")
+c = M.contract(f"{PPE}._adjust_process_count", props=["C08", "C18", "C19", "C07"])
+c.param("self", T.Ref(PPE))
+c.rely("queues-alive", "self._call_queue is not None and self._result_queue is not None and self._processes_management_lock is not None", "A-atomic")
+c.rely("registered-pids-are-live-children", "forall(Int, lambda k: implies(k in self._processes, G.pid_live[k]))", "A-pids")
+c.ensures("adjust/registered-pids-stay-live", "forall(Int, lambda k: implies(k in self._processes, G.pid_live[k]))")
+c.ensures("adjust/never-above-the-larger-of-old-and-max", "len(self._processes) <= max(old(len(self._processes)), self._max_workers)", prop="C08")
+c.ensures("adjust/fills-up-to-max", "len(self._processes) >= self._max_workers", prop=["C08", "C07"])
+c.ensures("adjust/keeps-existing-workers", KEEP.format(o="old"), prop=["C08", "C10"])
+c.ensures("adjust/new-workers-are-started", NEWSTARTED.format(o="old"), prop="C08")
+c.raises_only("adjust/no-exception")
+c.modifies("contents(self._processes)", "G.started", "G.pid_live")
+i = M.invariant(f"{PPE}._adjust_process_count", 0, "while len(self._processes) < self._max_workers:")
+i.inv("bound", "len(self._processes) <= max(at_entry(len(self._processes)), self._max_workers) and len(self._processes) >= at_entry(len(self._processes))", prop="C08")
+i.inv("registered-pids-are-live", "forall(Int, lambda k: implies(k in self._processes, G.pid_live[k]))")
+i.inv("keeps-existing-workers", KEEP.format(o="at_entry"), prop="C08")
+i.inv("new-workers-are-started", NEWSTARTED.format(o="at_entry"), prop="C08")
+i.iter_post("spawn/one-process-per-iteration", "log_count('Process') >= 1 and log_count('start') == 1 and log_arg('start', 0, 0) is log_arg('Process', -1, 0)", prop="C08")
+i.iter_post("spawn/ships-worker-configuration",
+            "log_arg('Process', -1, 1) is _process_worker and log_arg('Process', -1, 2)[0] is self._call_queue and "
+            "log_arg('Process', -1, 2)[1] is self._result_queue and log_arg('Process', -1, 2)[2] is self._initializer and "
+            "log_arg('Process', -1, 2)[3] is self._initargs and log_arg('Process', -1, 2)[4] is self._processes_management_lock and "
+            "log_arg('Process', -1, 2)[5] == self._timeout and log_arg('Process', -1, 2)[6] is log_arg('Process', -1, 0)._worker_exit_lock", prop="C18")
+i.iter_post("spawn/env-shipped-when-supported",
+            "implies(log_count('Process_rejects_env') == 0, log_count('Process') == 1 and log_arg('Process', 0, 3) is self._env)", prop="C18")
+i.iter_post("spawn/depth-plus-one", "log_arg('Process', -1, 2)[7] == _CURRENT_DEPTH + 1", prop="C19")
+i.iter_post("spawn/exit-lock-taken-before-start",
+            "exists_event('acquire', lambda l: l is log_arg('Process', -1, 0)._worker_exit_lock) and "
+            "ordered('acquire', lambda l: l is log_arg('Process', -1, 0)._worker_exit_lock, 'start', lambda p, pid: True)", prop="C07")
+i.iter_post("spawn/registered-under-its-pid",
+            "log_arg('start', 0, 1) in self._processes and self._processes[log_arg('start', 0, 1)] is log_arg('start', 0, 0)", prop="C08")
